@@ -118,22 +118,24 @@ func (s *Stream) logDroppedDataWithThrottling() {
 
 // callSinksAsync asynchronously calls all sink functions
 func (s *Stream) callSinksAsync(results []map[string]any) {
-	// Safely access sinks slice using read lock
+	// Take the slice headers under the read lock and release it before any sink
+	// runs: a synchronous sink that calls AddSink / AddSyncSink (write lock) would
+	// otherwise wait for the lock its own caller holds. Sinks are only ever appended,
+	// so the elements seen through these headers never change.
 	s.sinksMux.RLock()
-	defer s.sinksMux.RUnlock()
+	sinks, syncSinks := s.sinks, s.syncSinks
+	s.sinksMux.RUnlock()
 
-	if len(s.sinks) == 0 && len(s.syncSinks) == 0 {
+	if len(sinks) == 0 && len(syncSinks) == 0 {
 		return
 	}
 
-	// Directly iterate sinks slice to avoid copy overhead
-	// Since submitSinkTask is async, won't hold lock for long time
-	for _, sink := range s.sinks {
+	for _, sink := range sinks {
 		s.submitSinkTask(sink, results)
 	}
 
 	// Execute synchronous sinks (blocking, sequential)
-	for _, sink := range s.syncSinks {
+	for _, sink := range syncSinks {
 		// Recover panic for each sync sink to prevent crashing the stream
 		func() {
 			defer func() {
